@@ -67,6 +67,7 @@ def run(prog, chk):
         raise AnalysisBroken("C11.clone: fewer than 4 field-by-field clone functions recognised")
     _run(prog, chk)
     dump_closure_table(prog, chk)
+    anchor_removal_table(prog, chk)
 
 
 def _run(prog, chk):
@@ -286,3 +287,56 @@ def dump_closure_table(prog, chk):
                             bad.append("%s passes its const %s to %s as %s (line %s)" % (fn.name, strip(a)["n"], callee, pt, fn.elem_line(b, i)))
     chk.ob("C11.dump", "const-dropped", not bad, "%d dumpers take the object as pointer-to-const; none hands it to a callee that takes it non-const%s"
            % (n_const, ": %s" % bad[:3] if bad else ""), loc="src/ksi/tlv.c")
+
+
+def anchor_removal_table(prog, chk):
+    """Replacing the trust anchor of a signature (extending, replacing the publication record) removes the old calendar authentication
+    record (0x805) and publication record (0x803) from the objects AND from the retained TLV tree - what is serialized and cloned is the
+    tree.  removeCalAuthAndPublication is evaluated over element sequences with the anchor first, in the middle, last, twice, absent and
+    alone: exactly the anchor elements leave the list, whatever their position, and both objects are dropped."""
+    from ksirules.interp import TOP, Interp, Ptr, succeed_model
+    chk.rule("C11.anchor", "an old trust anchor leaves the retained TLV tree wherever it stands (decision table over element positions)", floor=8)
+    fn = prog.fn("removeCalAuthAndPublication", "signature_builder.c")
+    sp = fn.params[0]["n"]
+    for tags in ([0x801, 0x802, 0x805], [0x805, 0x801, 0x802], [0x801, 0x803, 0x802], [0x803], [0x801], [0x801, 0x802, 0x803], [0x805, 0x803], [0x801, 0x805, 0x801, 0x803],
+                 [0x800, 0x801, 0x801, 0x802, 0x805], []):
+        cur = list(range(len(tags)))        # identities of the elements still in the list
+
+        def length(I, p, node, args):
+            return len(cur) if args[0] == Ptr("NESTED") else TOP
+
+        def element_at(I, p, node, args):
+            if args[0] != Ptr("NESTED") or not isinstance(args[1], int):
+                return TOP
+            if not (0 <= args[1] < len(cur)):
+                return 0x10b
+            I.write(p, lvalue_key(strip(node["a"][2])["e"], I.fn), Ptr("T%d" % cur[args[1]]))
+            return 0
+
+        def remove(I, p, node, args):
+            if args[0] != Ptr("NESTED") or not isinstance(args[1], int):
+                return TOP
+            if not (0 <= args[1] < len(cur)):
+                return 0x10b
+            del cur[args[1]]
+            return 0
+
+        def tag(I, p, node, args):
+            w = getattr(args[0], "what", "")
+            return tags[int(w[1:])] if w.startswith("T") and w[1:].isdigit() else TOP
+        ov = {"KSI_TLVList_length": length, "KSI_TLVList_elementAt": element_at, "KSI_TLVList_remove": remove, "KSI_TLV_getTag": tag,
+              "KSI_TLV_getNestedList": lambda I, p, n, a: (I.write(p, lvalue_key(strip(n["a"][1])["e"], I.fn), Ptr("NESTED")), 0)[1],
+              "KSI_CalendarAuthRec_free": lambda I, p, n, a: TOP, "KSI_PublicationRecord_free": lambda I, p, n, a: TOP}
+        inputs = {sp: Ptr("SIG"), "SIG->ctx": Ptr("ctx"), "SIG->baseTlv": Ptr("BASE"), "SIG->calendarAuthRec": Ptr("AUTH"), "SIG->publication": Ptr("PUB")}
+        I = Interp(fn, inputs=inputs, call_model=succeed_model(prog, ov), on_unknown="stop", prog=prog, loop_bound=len(tags) + 4)
+        paths = I.run()
+        chk.paths += len(paths)
+        inst = "anchor removal[elements %s]" % (" ".join("%#x" % t for t in tags) or "none")
+        if len(paths) != 1 or paths[0].undetermined or paths[0].ret is TOP:
+            raise AnalysisBroken("removeCalAuthAndPublication: evaluation not determined for %s: %s" % (inst, [q.undetermined[:1] for q in paths]))
+        q = paths[0]
+        want = [k for k, t in enumerate(tags) if t not in (0x803, 0x805)]
+        ok = q.ret == 0 and cur == want and I.read(q, "SIG->calendarAuthRec") == 0 and I.read(q, "SIG->publication") == 0
+        chk.ob("C11.anchor", inst, ok, "expected KSI_OK, elements left %s, both anchor objects dropped; source: status %s, elements left %s, objects %s / %s" % (
+            [("%#x" % tags[k]) for k in want], q.ret, [("%#x" % tags[k]) for k in cur], I.read(q, "SIG->calendarAuthRec"), I.read(q, "SIG->publication")),
+            loc=fn.loc(), fn=fn, nontrivial=any(t in (0x803, 0x805) for t in tags))
